@@ -30,10 +30,12 @@ try:
     KNOWN_NAMES = {k: set(v['names']) for k, v in _raw.items()}
     KNOWN_FP = {k: v.get('fingerprints', {}) for k, v in _raw.items()}
     KNOWN_LOCALS = {k: v.get('locals', {}) for k, v in _raw.items()}
+    KNOWN_REFS = {k: v.get('refs', {}) for k, v in _raw.items()}
 except FileNotFoundError:  # inventory not generated: the pass is off
     KNOWN = KNOWN_NAMES = None
     KNOWN_FP = {}
     KNOWN_LOCALS = {}
+    KNOWN_REFS = {}
 
 PURE_BUILTINS = {'len', 'tuple', 'list', 'set', 'frozenset', 'dict', 'sorted', 'min', 'max', 'sum', 'abs', 'int', 'bool', 'str', 'range',
                  'enumerate', 'zip', 'reversed', 'isinstance', 'any', 'all', 'divmod', 'float', 'bytes', 'repr', 'hash', 'id', 'type', 'iter'}
@@ -1107,6 +1109,19 @@ def undo_local_renames(tree, modname):
     return done
 
 
+def referrers(tree):
+    """{private name: sorted scoped functions that mention it (as a name or an attribute)} for every underscore-prefixed function / method name of the module"""
+    fns = scoped_functions(tree)
+    private = {q.rsplit('.', 1)[-1] for q, _ in fns if q.rsplit('.', 1)[-1].startswith('_') and not q.rsplit('.', 1)[-1].endswith('__')}
+    out = {p_: set() for p_ in private}
+    for q, fn in fns:
+        for n in ast.walk(fn):
+            nm = n.id if isinstance(n, ast.Name) else n.attr if isinstance(n, ast.Attribute) else None
+            if nm in out and nm != q.rsplit('.', 1)[-1]:
+                out[nm].add(q)
+    return {k: sorted(v) for k, v in out.items()}
+
+
 def undo_private_renames(tree, modname):
     """a PRIVATE function / method of the confirmed tree that is gone while a new one with (nearly) the same body appeared in the same scope was renamed:
     give it its old name back, in the definition and in every reference inside this module, so that the rules find their anchor. Only names that
@@ -1121,22 +1136,46 @@ def undo_private_renames(tree, modname):
     known_here = set(fps)
     fresh = {q: fn for q, fn in present.items() if q not in known_here and q.rsplit('.', 1)[-1].startswith('_')}
     done = []
-    for q in missing:
-        scope = q.rsplit('.', 1)[0] if '.' in q else ''
-        cands = sorted(((_similarity(fps[q], fingerprint(fn)), q2) for q2, fn in fresh.items() if (q2.rsplit('.', 1)[0] if '.' in q2 else '') == scope), reverse=True)
-        if not cands or cands[0][0] < 0.8 or (len(cands) > 1 and cands[1][0] >= 0.6):
-            continue
-        new_q = cands[0][1]
+
+    def scope_of(x):
+        return x.rsplit('.', 1)[0] if '.' in x else ''
+    sims = {(q, q2): _similarity(fps[q], fingerprint(fn)) for q in missing for q2, fn in fresh.items() if scope_of(q) == scope_of(q2)}
+    chosen = {}
+    # strong matches first (body nearly unchanged), then matches supported by the call sites; always mutual best
+    for strong in (True, False):
+        now = None if strong else referrers(tree)
+        for q in missing:
+            if q in chosen:
+                continue
+            cands = sorted(((v, q2) for (qq, q2), v in sims.items() if qq == q and q2 not in chosen.values()), reverse=True)
+            if not cands:
+                continue
+            best_sim, best = cands[0]
+            rival_for_best = max([v for (qq, q2), v in sims.items() if q2 == best and qq != q and qq not in chosen] or [0.0])
+            if strong:
+                if best_sim >= 0.8 and not (len(cands) > 1 and cands[1][0] >= 0.6) and rival_for_best < 0.6:
+                    chosen[q] = best
+            else:
+                was = set(KNOWN_REFS.get(modname, {}).get(q.rsplit('.', 1)[-1], ()))
+                if best_sim >= 0.45 and rival_for_best < best_sim and was and set(now.get(best.rsplit('.', 1)[-1], ())) & was \
+                        and not (len(cands) > 1 and cands[1][0] >= best_sim - 0.1):
+                    chosen[q] = best
+    for q, new_q in chosen.items():
         old, new = q.rsplit('.', 1)[-1], new_q.rsplit('.', 1)[-1]
-        all_names = {n.id for n in ast.walk(tree) if isinstance(n, ast.Name)} | {n.attr for n in ast.walk(tree) if isinstance(n, ast.Attribute)}
-        if old in all_names:
+        is_method = '.' in q
+        # a module-level function is referred to by name, a method through an attribute: only that kind of reference is renamed, and the old name must be free there
+        if is_method:
+            taken = {n.attr for n in ast.walk(tree) if isinstance(n, ast.Attribute)} | {m_.name for c_ in ast.walk(tree) if isinstance(c_, ast.ClassDef) for m_ in c_.body if isinstance(m_, FUNC)}
+        else:
+            taken = {n.id for n in ast.walk(tree) if isinstance(n, ast.Name)} | {st.name for st in tree.body if isinstance(st, FUNC)}
+        if old in taken:
             continue  # the old name is still used for something else
+        target = present[new_q]
+        target.name = old
         for n in ast.walk(tree):
-            if isinstance(n, FUNC) and n.name == new:
-                n.name = old
-            elif isinstance(n, ast.Name) and n.id == new:
+            if not is_method and isinstance(n, ast.Name) and n.id == new:
                 n.id = old
-            elif isinstance(n, ast.Attribute) and n.attr == new:
+            elif is_method and isinstance(n, ast.Attribute) and n.attr == new:
                 n.attr = old
         fresh.pop(new_q)
         done.append(f'{new}->{old}')
